@@ -144,6 +144,21 @@ Proof. intros b b' Hb Hb'. two_cases b Hb; two_cases b' Hb'; sym_amp. Qed.
 Theorem ph_logical (e : R) : forall b b', (b < 2)%nat -> (b' < 2)%nat ->
   lamp (g_unitary (g_ph e)) 2 1 [] b b' = M_diag k1 e b' b.
 Proof. intros b b' Hb Hb'. two_cases b Hb; two_cases b' Hb'; sym_amp. Qed.
+(* templates of the generic one-qubit conversion: what each can realise *)
+Theorem phase_lower_logical (e : R) : forall b b', (b < 2)%nat -> (b' < 2)%nat ->
+  lamp (g_unitary (g_phase_lower e)) 2 1 [] b b' = M_diag e k1 b' b.
+Proof. intros b b' Hb Hb'. two_cases b Hb; two_cases b' Hb'; sym_amp. Qed.
+Theorem two_phase_logical (e1 e2 : R) : forall b b', (b < 2)%nat -> (b' < 2)%nat ->
+  lamp (g_unitary (g_2phase e1 e2)) 2 1 [] b b' = M_diag e1 e2 b' b.
+Proof. intros b b' Hb Hb'. two_cases b Hb; two_cases b' Hb'; sym_amp. Qed.
+(* a single phase shifter on rail 1 acts as diag(e1, e2) up to a factor only with the RELATIVE phase:
+   lam * diag(1, e) = diag(e1, e2) forces lam = e1 and e1 * e = e2 *)
+Theorem single_phase_needs_relative_phase (lam e e1 e2 : R) :
+  (forall b b', (b < 2)%nat -> (b' < 2)%nat -> kmul lam (lamp (g_unitary (g_ph e)) 2 1 [] b b') = M_diag e1 e2 b' b) ->
+  lam = e1 /\ kmul e1 e = e2.
+Proof. intros H. pose proof (H 0%nat 0%nat ltac:(lia) ltac:(lia)) as H0. pose proof (H 1%nat 1%nat ltac:(lia) ltac:(lia)) as H1.
+  rewrite ph_logical in H0, H1 by lia. cbv -[K kadd kmul kopp ksub kconj k0 k1] in H0, H1.
+  assert (E : lam = e1). { rewrite <- H0. ring. } split. exact E. rewrite <- E. exact H1. Qed.
 End Param.
 
 (* for every real angle: Rx(theta) = [[cos, -i sin], [-i sin, cos]](theta/2), Ry, Rz = diag(e^{-i theta/2}, e^{i theta/2}),
